@@ -407,7 +407,7 @@ func genSessionSources(r *rand.Rand, t *Tree, id int) *SessionScn {
 // ---- C12 round trips: declarations with rich preset values
 
 var rtStrings = []string{"", "a", "hello world", " lead", "trail ", "  both  ", `"`, `"quoted"`, `say "hi"`, `back\slash`, "tab\there", "new\nline", "cr\rlf",
-	"é", "naïve café", "世界", "\u00a0nbsp", "\u2028ls", "a=b", "a:b", "k:v:w", ";semi", "#hash", "[sec]", "=", ":", "\xff", "a\xffb", "\x00", "emoji😀",
+	"é", "naïve café", "世界", "\u00a0nbsp", "\u2028ls", "a=b", "a:b", "k:v:w", ";semi", "#hash", "make clean ; make all", "a #b", "x ;", "; y", "[sec]", "=", ":", "\xff", "a\xffb", "\x00", "emoji😀",
 	"'single'", "`back`", "a  b", "trailing\\", `"\n"`, "\t", " ", "x" + strings.Repeat("y", 300), strings.Repeat("long ", 1200)}
 
 func rtValue(r *rand.Rand, vt string, base int) string {
